@@ -136,6 +136,27 @@ class Ctx:
     def concretize_bool(self, e) -> bool:
         return self.branch(e)
 
+    def choose_value(self, e, candidates):
+        """concretise int term `e` over an explicit finite candidate list: one feasibility query per
+        candidate at the first visit (linear), none on re-execution"""
+        e = z3.simplify(e)
+        if z3.is_int_value(e):
+            return e.as_long()
+        i = len(self.trace)
+        if i < len(self.schedule):
+            d = self.schedule[i]
+            if d[0] != "c" or len(d) < 4:
+                raise Inconclusive("non-deterministic re-execution (expected value-choice decision)")
+            k, vals = d[1], d[3]
+        else:
+            vals = [v for v in candidates if self.check(e == v) == z3.sat]
+            k = 0
+            if not vals:
+                raise PathAbort("infeasible")
+        self.trace.append(("c", k, len(vals), vals))
+        self.solver.add(e == vals[k])
+        return vals[k]
+
     def choose(self, n: int) -> int:
         """solver-free decision among n alternatives that are all feasible by construction
         (e.g. an unconstrained fresh draw from a finite range); returns the index taken"""
@@ -637,6 +658,16 @@ def explore(run, *, max_paths: int = 200_000, max_seconds: float = 3600.0, label
         except PathAbort:
             obs = None
             res.aborted += 1
+        except Inconclusive:
+            raise
+        except Exception as e:
+            # an exception escaping the code under test on a feasible path: a violation candidate, decided by
+            # replaying the path's model on the real code (a harness bug does not replay and ends as exit 2)
+            import traceback as _tb
+
+            ctx.notes["unexpected_exception"] = f"{type(e).__name__}: {str(e)[:200]}"
+            ctx.notes["traceback"] = _tb.format_exc(limit=6)[-1500:]
+            obs = [(f"no unexpected exception (got {type(e).__name__}: {str(e)[:80]})", False)]
         finally:
             Ctx.cur = None
         if obs is not None:
@@ -673,7 +704,7 @@ def explore(run, *, max_paths: int = 200_000, max_seconds: float = 3600.0, label
             break
         last = tr.pop()
         if last[0] == "c":
-            schedule = tr + [("c", last[1] + 1, last[2])]
+            schedule = tr + [("c", last[1] + 1, last[2]) + tuple(last[3:])]
         else:
             schedule = tr + [(last[0], False, False) + tuple(last[3:])]
         if res.paths + res.aborted + res.truncated >= max_paths:
